@@ -360,7 +360,7 @@ func runWriterSeq(c *Ctx, i int64, seq []int, conc bool) {
 			if !afterClose {
 				start()
 			}
-			panicked = call("Writer.Write", tag, func() { n, err = w.Write(data) })
+			panicked = call("Writer.Write", tag, func() { n, err = writeRecycled(w, data) })
 			if !panicked && !afterClose {
 				if err == nil {
 					if n != len(data) {
